@@ -19,6 +19,8 @@
 -/
 import GEVerif.Lemmas.WellTyped
 import GEVerif.Lemmas.StackMachine
+import GEVerif.Lemmas.StrOps
+import GEVerif.Props.C18
 
 namespace GEVerif.C02
 open GEVerif GEVerif.WellTyped
@@ -221,5 +223,165 @@ example : ¬ wt stackRefG [] (.cls stackRefG.spec.start) (.node 0 0 0 [.int 0]) 
   simp only [List.getElem?_cons_zero, Option.some.injEq] at ha
   subst ha
   simp [sat] at hsat
+
+/-! ## The refinement's own variation operators
+
+`StringSizeBetween.mutate` / `.crossover` are what the tree representation calls whenever a refined string field is picked for
+variation; users call them directly as well.  Modelled in Model/StrOps.lean over an arbitrary random source. -/
+
+section StringOperators
+open GEVerif.StrOps
+variable {σ α : Type} (src : Source σ)
+
+/-- **`StringSizeBetween.mutate` stays inside the refinement**, for every bound pair (equal bounds included), every current string
+inside it, every alphabet and every outcome of the draws. -/
+theorem C02_string_mutate_sat (hs : src.Sound) (lo hi : Nat) (al cur : List α) (s : σ) (out : List α) (s' : σ)
+    (hcur : InRange lo hi al cur) (h : strMutate src lo hi al cur s = (some out, s')) : InRange lo hi al out := by
+  obtain ⟨h1, h2, h3⟩ := hcur
+  unfold strMutate at h
+  simp only at h
+  split at h
+  · next hc =>
+    split at h
+    · next i s2 hi' =>
+      have hb := randintE_bounds src hs _ _ _ _ _ hi'
+      simp only [Prod.mk.injEq, Option.some.injEq] at h
+      obtain ⟨rfl, _⟩ := h
+      refine ⟨?_, ?_, ?_⟩
+      · simp only [List.length_append, List.length_take, List.length_drop]; omega
+      · simp only [List.length_append, List.length_take, List.length_drop]; omega
+      · intro c hc'
+        rcases List.mem_append.mp hc' with hm | hm
+        · exact h3 c (List.mem_of_mem_take hm)
+        · exact h3 c (List.mem_of_mem_drop hm)
+    · simp at h
+  · split at h
+    · next hc =>
+      split at h
+      · next c s2 hch =>
+        split at h
+        · next i s3 hi' =>
+          have hb := randintE_bounds src hs _ _ _ _ _ hi'
+          have hcm := choice_some_mem src _ _ _ _ hch
+          simp only [Prod.mk.injEq, Option.some.injEq] at h
+          obtain ⟨rfl, _⟩ := h
+          refine ⟨?_, ?_, ?_⟩
+          · simp only [List.length_append, List.length_take, List.length_cons, List.length_drop]; omega
+          · simp only [List.length_append, List.length_take, List.length_cons, List.length_drop]; omega
+          · intro c' hc'
+            rcases List.mem_append.mp hc' with hm | hm
+            · exact h3 c' (List.mem_of_mem_take hm)
+            · rcases List.mem_cons.mp hm with rfl | hm
+              · exact hcm
+              · exact h3 c' (List.mem_of_mem_drop hm)
+        · simp at h
+      · simp at h
+    · split at h
+      · next hpos =>
+        split at h
+        · next i s2 hi' =>
+          have hb := randintE_bounds src hs _ _ _ _ _ hi'
+          split at h
+          · next c s3 hch =>
+            have hcm := choice_some_mem src _ _ _ _ hch
+            simp only [Prod.mk.injEq, Option.some.injEq] at h
+            obtain ⟨rfl, _⟩ := h
+            refine ⟨?_, ?_, ?_⟩
+            · simp only [List.length_append, List.length_take, List.length_cons, List.length_drop]; omega
+            · simp only [List.length_append, List.length_take, List.length_cons, List.length_drop]; omega
+            · intro c' hc'
+              rcases List.mem_append.mp hc' with hm | hm
+              · exact h3 c' (List.mem_of_mem_take hm)
+              · rcases List.mem_cons.mp hm with rfl | hm
+                · exact hcm
+                · exact h3 c' (List.mem_of_mem_drop hm)
+          · simp at h
+        · simp at h
+      · simp only [Prod.mk.injEq, Option.some.injEq] at h
+        obtain ⟨rfl, _⟩ := h
+        exact ⟨h1, h2, h3⟩
+
+/-- **`StringSizeBetween.crossover` stays inside the refinement** when the current string and every mate are inside it. -/
+theorem C02_string_crossover_sat (hs : src.Sound) (lo hi : Nat) (al : List α) (mates : List (List α)) (cur : List α) (s : σ)
+    (out : List α) (s' : σ) (hcur : InRange lo hi al cur) (hm : ∀ m ∈ mates, InRange lo hi al m)
+    (h : strCrossover src lo hi mates cur s = (some out, s')) : InRange lo hi al out := by
+  unfold strCrossover at h
+  split at h
+  · simp only [Prod.mk.injEq, Option.some.injEq] at h
+    obtain ⟨rfl, _⟩ := h
+    exact hcur
+  · split at h
+    · next size s1 hsz =>
+      split at h
+      · next mid s2 hmid =>
+        split at h
+        · next other s3 hch =>
+          have hb := randintE_bounds src hs _ _ _ _ _ hmid
+          obtain ⟨o1, o2, o3⟩ := hm other (choice_some_mem src _ _ _ _ hch)
+          obtain ⟨c1, c2, c3⟩ := hcur
+          simp only [Prod.mk.injEq, Option.some.injEq] at h
+          obtain ⟨rfl, _⟩ := h
+          refine ⟨?_, ?_, ?_⟩
+          · simp only [List.length_append, List.length_take, List.length_drop]; omega
+          · simp only [List.length_append, List.length_take, List.length_drop]; omega
+          · intro c hc
+            rcases List.mem_append.mp hc with hx | hx
+            · exact c3 c (List.mem_of_mem_take hx)
+            · exact o3 c (List.mem_of_mem_drop hx)
+        · simp at h
+      · simp at h
+    · simp at h
+
+/-- the statement is not vacuous: a string at BOTH bounds (lo = hi = 2), every operation drawn -/
+example : ∀ m ∈ [0, 1, 2], ∀ out s', strMutate scripted 2 2 ["x", "y", "z"] ["x", "y"] ⟨[m, 1, 2], 0⟩ = (some out, s') →
+    InRange 2 2 ["x", "y", "z"] out := by
+  intro m _ out s' h
+  exact C02_string_mutate_sat scripted C18.C18_scripted_sound 2 2 _ _ _ out s' ⟨by decide, by decide, by decide⟩ h
+
+example : (strMutate scripted 2 2 ["x", "y", "z"] ["x", "y"] ⟨[0, 1, 2], 0⟩).1 = some ["x", "z"] := by decide
+example : (strMutate scripted 1 3 ["a", "b"] ["a", "b"] ⟨[1, 1, 1], 0⟩).1 = some ["a", "b", "b"] := by decide
+example : (strMutate scripted 0 3 ["a", "b"] [] ⟨[1, 1, 1], 0⟩).1 = none := by decide
+
+/-- **Every generated string has one letter per row, and at a usable row never a letter of probability 0** -- for every matrix,
+every sound source and every state of it.  (Rows without usable weight fall back to a uniform letter.) -/
+theorem C02_weighted_string_sat (hs : src.Sound) (den : Nat) (rows : List (List Nat)) (hne : ∀ row ∈ rows, row ≠ []) (s : σ) :
+    ∃ out, (wsGenerate src den rows s).1 = some out ∧ out.length = rows.length ∧
+      ∀ p (hp : p < rows.length), out.getD p 0 < rows[p].length ∧ (rowUsable den rows[p] → 0 < rows[p].getD (out.getD p 0) 0) := by
+  induction rows generalizing s with
+  | nil => exact ⟨[], rfl, rfl, fun p hp => absurd hp (by simp)⟩
+  | cons row rows ih =>
+    have hrow : row ≠ [] := hne row List.mem_cons_self
+    have hlen : 0 < row.length := List.length_pos_iff.mpr hrow
+    -- the first letter
+    have hfirst : ∃ i, (choiceWeightedIdx src (accScaled den row) row.length s).1 = some i ∧ i < row.length ∧
+        (rowUsable den row → 0 < row.getD i 0) := by
+      by_cases hu : 0 < (accScaled den row).getLastD 0
+      · obtain ⟨i, h1, h2, h3⟩ := C18.C18_choice_weighted_sound src hs den row s hu
+        exact ⟨i, h1, h2, fun _ => h3⟩
+      · obtain ⟨i, h1, h2⟩ := C18.C18_choice_weighted_all_zero src hs (accScaled den row) row.length s (by omega) hlen
+        exact ⟨i, h1, h2, fun h => absurd h hu⟩
+    obtain ⟨i, hi, hilt, hipos⟩ := hfirst
+    obtain ⟨out, ho, hol, hall⟩ := ih (fun r hr => hne r (List.mem_cons_of_mem _ hr)) (choiceWeightedIdx src (accScaled den row) row.length s).2
+    refine ⟨i :: out, ?_, by simp [hol], ?_⟩
+    · unfold wsGenerate
+      have : choiceWeightedIdx src (accScaled den row) row.length s = (some i, (choiceWeightedIdx src (accScaled den row) row.length s).2) := by
+        rw [← hi]
+      rw [this]
+      simp only
+      have h2 : wsGenerate src den rows (choiceWeightedIdx src (accScaled den row) row.length s).2 =
+          (some out, (wsGenerate src den rows (choiceWeightedIdx src (accScaled den row) row.length s).2).2) := by
+        rw [← ho]
+      rw [h2]
+    · intro p hp
+      cases p with
+      | zero => exact ⟨by simpa using hilt, by simpa using hipos⟩
+      | succ q =>
+        have hq : q < rows.length := by simpa using hp
+        simpa using hall q hq
+
+/-- a row whose FIRST letters have probability 0, the draw 0 included (scripted source) -/
+example : (wsGenerate scripted 4 [[0, 2, 1, 1], [0, 0, 4, 0]] ⟨[0, 0], 0⟩).1 = some [1, 2] := by decide
+
+end StringOperators
 
 end GEVerif.C02
